@@ -18,6 +18,8 @@ struct VOnly { @location(0) p: vec4<f32>, @builtin(vertex_index) vi: u32, @locat
 struct VBoth { @location(0) p: vec3<f32>, @location(1) w: f32 }
 struct WorkOnly { k: u32, l: vec2<u32> }
 struct Deep { @location(4) a: f32, @location(5) b: vec2<f32> }
+struct Sprite { uv: mat2x2<f32>, layer: f32 }
+@group(0) @binding(6) var<storage, read> sprites: array<Sprite, 3>;
 struct Light { c: vec4<f32> }
 struct Inst { @location(11) m: vec4<f32> }
 struct Scene { first: Inst, key: Light, fill: Light }
@@ -33,7 +35,8 @@ var<workgroup> wg: WorkOnly;
 @compute @workgroup_size(1) fn cs() { wg.k = 1u; }
 '''
 HOST_SHAREABLE = {'Inner': True, 'Host': True, 'Uni': True, 'VOnly': False, 'VBoth': True, 'WorkOnly': True, 'Deep': True, 'HB': True,
-                  'Light': True, 'Inst': True, 'Scene': True}      # Inst: entry argument AND nested next to a struct that is met twice
+                  'Light': True, 'Inst': True, 'Scene': True,
+                  'Sprite': True}     # WGSL size 24: not a multiple of 16 although it holds a mat2x2 (16-aligned in glam, 8-aligned in WGSL)      # Inst: entry argument AND nested next to a struct that is met twice
 
 
 def run(ctx):
